@@ -70,6 +70,9 @@ def cells_of(case, world, real, src, found) -> list[str]:
             except InvalidSourceList:
                 cells.append("root-inside-package")
                 break
+            except Exception:           # the real crawl raised something else (reported where it was first seen)
+                cells.append("real-code-raises")
+                break
     finally:
         os.chdir(old)
     ebases = set(mp + [cwd]) if case.epb else None
@@ -96,7 +99,7 @@ def cells_of(case, world, real, src, found) -> list[str]:
 
 def roundtrip_failures(case, world, real):
     """[(src, found, cells)] for sources that do not round-trip; [] when a duplicate module stops mypy."""
-    if "E" in real or real.get("D", "-") != "-":
+    if "E" in real or "S" not in real or real.get("D", "-") != "-":
         return []
     out = []
     for src, (m2, found) in zip(real["S"], real["F"]):
@@ -135,7 +138,7 @@ def dir_failures(case, world, real):
     from mypy.find_sources import InvalidSourceList, SourceFinder
     from mypy.fscache import FileSystemCache
 
-    if "E" in real or len(case.args) != 1 or case.args[0].endswith((".py", ".pyi")):
+    if "E" in real or "S" not in real or len(case.args) != 1 or case.args[0].endswith((".py", ".pyi")):
         return []          # (a path ending in .py[i] is taken as a file by create_source_list, whatever it is)
     d = layout._abs(world, case.args[0])
     if not os.path.isdir(d):
@@ -156,7 +159,7 @@ def dir_failures(case, world, real):
                 continue
             try:
                 mod, _ = sf.crawl_up(f)
-            except InvalidSourceList:
+            except Exception:
                 continue
             mod = mod or "__main__"
             if any(m == mod and p != f for p, m in listed.items()):
